@@ -124,6 +124,32 @@ func (s *byteEOFSrc) ReadByte() (byte, error) {
 	return b, nil
 }
 
+// failEndSrc delivers all its data and then answers with an I/O error instead of io.EOF.
+type failEndSrc struct {
+	data []byte
+	tag  int
+}
+
+func (s *failEndSrc) Read(p []byte) (int, error) {
+	if len(s.data) == 0 {
+		return 0, &injErr{s.tag}
+	}
+	n := copy(p, s.data[:min(len(s.data), 7)])
+	s.data = s.data[n:]
+	return n, nil
+}
+
+type byteFailEndSrc struct{ *failEndSrc }
+
+func (s byteFailEndSrc) ReadByte() (byte, error) {
+	if len(s.data) == 0 {
+		return 0, &injErr{s.tag}
+	}
+	b := s.data[0]
+	s.failEndSrc.data = s.data[1:]
+	return b, nil
+}
+
 type byteOnlySrc struct{ s *byteSrc }
 
 func (b byteOnlySrc) Read(p []byte) (int, error) { return b.s.Read(p) }
@@ -180,6 +206,10 @@ func mkSource(kind string, data []byte, failAfter, tag int, adv []int, frags []i
 		return byteOnlySrc{&byteSrc{advSrc{data: data, failAfter: failAfter, tag: tag}}}
 	case "byteeof":
 		return &byteEOFSrc{data: data}
+	case "failend":
+		return &failEndSrc{data: data, tag: 9}
+	case "bytefailend":
+		return byteFailEndSrc{&failEndSrc{data: data, tag: 9}}
 	case "bytes":
 		return bytes.NewReader(data)
 	case "buffer":
